@@ -13,7 +13,8 @@ META = ("other",
         "itself); R3 new/write_str/into_parts; R4 every QueryBuilder::prepare_value impl calls push_param exactly once on "
         "every path with a clone of its own argument; R5 placeholder() table; R6 entry points build/build_any wire "
         "placeholder() of the rendering backend into the writer and return into_parts(); R7 no literal placeholder mark "
-        "in any renderer; R9 no side writer",
+        "in any renderer; R9 no side writer; R10 the tuple conversions that feed in_tuples / from_values / VALUES lists "
+        "(IntoValueTuple arity 1..12, ValueTuple::into_iter) keep the components in index order",
         "one obligation per rule instance (function path, call site, literal, field mutation); all control paths of the "
         "named functions are enumerated")
 
@@ -427,5 +428,7 @@ def check(run):
         check_entry_points(run, f, cfg)
         check_no_literal_marks(run, f, cfg)
         check_no_side_writer(run, f, cfg)
+        from .c12 import check_tuples
+        check_tuples(run, f, cfg, rule="C01.R10")
     run.assumptions.append("raw SQL supplied by the user (Expr::cust, extra(), custom keywords/functions) contains no unquoted placeholder marks")
     run.assumptions.append("C01.R8 (no value-carrying field is dropped by a renderer) is decided under C07/C08 field consumption")
